@@ -1,273 +1,273 @@
 """
-D3 extensible processors (Python, Go), C3 prefix width, D7 alias
-transparency, D5 size arithmetic.
+D3 extensible processors (Python, Go), EC3 (C, both build variants), C3 the
+16-bit prefix, D7 alias / scalar processors.
+
+All three runtimes are summarised by the same path engine (sa.pyflow; Go and C
+are first re-encoded as Python ast, sa.node2py) and judged by the same code.
+The engine substitutes locals, inlines helpers and enumerates the feasible
+paths with their branch literals, so the judgement is made on values:
+
+    prefix event      = a top-level call of the base-type primitive whose data
+                        argument is a scratch object (fresh accessor / address
+                        of a local)
+    children          = the loop effect between prefix and skip
+    cursor assignment = a store to ctx.i, with old and new value
+
+Renaming locals, extracting helpers, swapping branches under a negated
+condition or replacing an early return by a guarded block all give the same
+paths.  A construct that is recognised but has the wrong parameter is a
+violation; a construct that is not recognised is reported as inconclusive.
 """
 
 from __future__ import annotations
 
 import ast
-from typing import Any, Dict, List, Optional, Tuple
+from typing import Any, Callable, Dict, List, Optional, Sequence, Tuple
 
 from .core import Finding, Inconclusive, Repo, RuleResult, rule, short, src_of
-from .golower import GoLower
-from .gomodel import GO_RT, Node, get_go, go_src
-from .normal import C, Poly, V, call, show
+from .flows import Lang, c_runtime, go_runtime, py_runtime
+from .normal import C, Poly, V, call, mod8, pow2, show, shr, trunc8
+from .pyflow import Ev, Path, PyFlow, new_parts, single_atom
 from .pymodel import get_model
-from .symeval import PyLower
 
 BP = "lib/py/bitprotolib/bp.py"
+GO_RT = "lib/go/bitproto.go"
+C_RT = "lib/c/bitproto.c"
 AST_REL = "compiler/bitproto/_ast.py"
 
 
-class ProcShape:
-    """What an extensible processor does, in order."""
+class Site:
+    """How one runtime spells the things the judge looks at."""
 
+    def __init__(self, lang: str, rel: str, names: Dict[str, str], base: str, data_idx: int, acc_cls: Optional[str], acc_field: str, di_cls: Optional[str], di_field: str) -> None:
+        self.lang, self.rel, self.names, self.base, self.data_idx = lang, rel, names, base, data_idx
+        self.acc_cls, self.acc_field, self.di_cls, self.di_field = acc_cls, acc_field, di_cls, di_field
+
+
+PY = Site("py", BP, {"self.extensible": "extensible", "ctx.is_encode": "is_encode", "self.capacity": "capacity", "self.nbits": "nbits", "ctx.i": "cur"}, "process_base_type", 3, "IntAccessor", "data", "DataIndexer", "field_number")
+GO = Site("go", GO_RT, {"t.extensible": "extensible", "ctx.isEncode": "is_encode", "t.capacity": "capacity", "t.nbits": "nbits", "ctx.i": "cur"}, "processBaseType", 3, "Uint16Accessor", "data", "DataIndexer", "fnumber")
+CS = Site("c", C_RT, {"descriptor.extensible": "extensible", "ctx.is_encode": "is_encode", "descriptor.cap": "capacity", "descriptor.nbits": "nbits", "ctx.i": "cur"}, "BpEndecodeBaseType", 2, None, "", None, "")
+
+EXT = ("truthy", V("extensible"))
+ENC = ("truthy", V("is_encode"))
+
+
+def truth(p: Path, key: Any) -> Optional[bool]:
+    for k, t in p.guards:
+        if k == key:
+            return t
+    return None
+
+
+def region(p: Path, expr: Poly) -> Optional[set]:
+    """Sign region ({lt, eq, gt}) the path condition confines `expr` to."""
+    for (tag, d), reg in p.regions.items():
+        if d == expr:
+            return set(reg)
+        if d == -expr:
+            return {{"lt": "gt", "gt": "lt", "eq": "eq"}[r] for r in reg}
+    return None
+
+
+def scratch(site: Site, v: Poly) -> Optional[Tuple[str, Optional[Poly], Poly]]:
+    """(kind, value it was initialised with, handle through which the result is read)"""
+    a = single_atom(v)
+    if a is None:
+        return None
+    if a[0] == "new" and site.acc_cls is not None and a[1] == site.acc_cls:
+        fields = dict(zip(a[2], a[3]))
+        return ("accessor", fields.get(site.acc_field), Poly.atom(("attr", v, site.acc_field)))
+    if a[0] == "ref":
+        return ("ref:" + a[2], a[3], Poly.atom(("out", site.base, site.data_idx, a[3])))
+    return None
+
+
+def flow_for(L: Lang, site: Site, key: str, extra_prims: Sequence[str] = ()) -> PyFlow:
+    cls = key.split(".")[0] if "." in key else None
+    return L.flow(cls, primitives=(site.base,) + tuple(extra_prims), names=site.names)
+
+
+class Judged:
     def __init__(self) -> None:
-        self.start_before_prefix: Optional[bool] = None
-        self.start_expr: Optional[str] = None
-        self.prefix_guard: Optional[str] = None
-        self.encode_call: Optional[str] = None
-        self.decode_call: Optional[str] = None
-        self.decode_guard_ok = False
-        self.children: Optional[str] = None
-        self.children_after_prefix = False
-        self.skip_guard: Optional[str] = None
-        self.skip_target: Optional[Poly] = None
-        self.skip_cond: Optional[str] = None
-        self.skip_assign_ok = False
-        self.events: List[str] = []
-        self.problems: List[str] = []
+        self.bad: List[Tuple[str, str, str, str]] = []  # (tag, message, construct, witness)
+        self.unsure: List[str] = []
+        self.info: Dict[str, Any] = {}
+
+    def v(self, tag: str, msg: str, construct: str = "", witness: str = "") -> None:
+        if not any(t == tag for t, _, _, _ in self.bad):
+            self.bad.append((tag, msg, construct, witness))
+
+    def u(self, msg: str) -> None:
+        if msg not in self.unsure:
+            self.unsure.append(msg)
 
 
-# ----------------------------------------------------------------- Python
-
-
-def py_shape(fn: ast.FunctionDef, capacity_name: str) -> ProcShape:
-    sh = ProcShape()
-    ver = [0]
-    env: Dict[str, Poly] = {}
-
-    def lw() -> PyLower:
-        return PyLower({}, names={"ctx.i": f"cur{ver[0]}", "self.capacity": "capacity", "self.nbits": "nbits"})
-
-    def walk(stmts: List[ast.stmt]) -> None:
-        for st in stmts:
-            if isinstance(st, ast.Expr) and isinstance(st.value, ast.Constant):
-                continue
-            if isinstance(st, ast.With):
-                sh.events.append("with " + src_of(st.items[0].context_expr))
-                walk(st.body)
-            elif isinstance(st, ast.Assign) and len(st.targets) == 1 and isinstance(st.targets[0], ast.Name):
-                nm = st.targets[0].id
-                env[nm] = lw().expr(st.value, env)
-                if src_of(st.value) == "ctx.i":
-                    sh.start_expr = nm
-                    sh.start_before_prefix = sh.prefix_guard is None
-                    sh.events.append(f"start {nm} = ctx.i")
-                elif nm == "accessor":
-                    sh.events.append("accessor rewrite")
-            elif isinstance(st, ast.If) and "extensible" in src_of(st.test) and any(isinstance(n, ast.Call) and "extensible_ahead" in src_of(n.func) for n in ast.walk(st)):
-                sh.prefix_guard = src_of(st.test)
-                sh.events.append("prefix")
-                for n in ast.walk(st):
-                    if isinstance(n, ast.Call) and "extensible_ahead" in src_of(n.func):
-                        from .guards import facts_at
-
-                        conds = {("" if t else "not ") + src_of(e) for e, t in facts_at(n, fn) if "is_encode" in src_of(e)}
-                        name = src_of(n.func)
-                        if "encode_extensible_ahead" in name and "decode" not in name:
-                            sh.encode_call = name
-                            if conds != {"ctx.is_encode"}:
-                                sh.problems.append(f"the prefix is encoded under {sorted(conds)}")
-                        else:
-                            sh.decode_call = name
-                            if conds != {"not ctx.is_encode"}:
-                                sh.problems.append(f"the prefix is decoded under {sorted(conds)}")
-                            # ahead = decode(...)
-                            p = getattr(n, "_parent", None)
-                            if isinstance(p, ast.Assign) and isinstance(p.targets[0], ast.Name):
-                                env[p.targets[0].id] = V("ahead")
-                                sh.decode_guard_ok = True
-                ver[0] += 1
-            elif isinstance(st, ast.For):
-                sh.children = src_of(st.iter)
-                sh.children_after_prefix = sh.prefix_guard is not None
-                body = " ; ".join(src_of(s) for s in st.body)
-                sh.events.append(f"children for {src_of(st.target)} in {src_of(st.iter)}: {body}")
-                ver[0] += 1
-            elif isinstance(st, ast.If) and any((isinstance(n, ast.Assign) and src_of(n.targets[0]) == "ctx.i") or (isinstance(n, ast.AugAssign) and src_of(n.target) == "ctx.i") for n in ast.walk(st)):
-                sh.skip_guard = src_of(st.test)
-                sh.events.append("skip")
-                inner_env = dict(env)
-                for s2 in st.body:
-                    if isinstance(s2, ast.Assign) and isinstance(s2.targets[0], ast.Name):
-                        inner_env[s2.targets[0].id] = lw().expr(s2.value, inner_env)
-                    elif isinstance(s2, ast.If):
-                        sh.skip_cond = src_of(s2.test)
-                        for s3 in s2.body:
-                            if isinstance(s3, ast.Assign) and src_of(s3.targets[0]) == "ctx.i":
-                                sh.skip_target = lw().expr(s3.value, inner_env)
-                                sh.skip_assign_ok = True
-                    elif isinstance(s2, ast.Assign) and src_of(s2.targets[0]) == "ctx.i":
-                        sh.skip_target = lw().expr(s2.value, inner_env)
-                        sh.skip_assign_ok = True
-                        sh.skip_cond = None
-                    elif isinstance(s2, ast.AugAssign) and src_of(s2.target) == "ctx.i" and isinstance(s2.op, ast.Add):
-                        sh.skip_target = V(f"cur{ver[0]}") + lw().expr(s2.value, inner_env)
-                        sh.skip_assign_ok = True
-                        sh.skip_cond = None
-                # relative form nested in an inner if:  if <cond>: ctx.i += X
-                if sh.skip_target is None:
-                    for s2 in ast.walk(st):
-                        if isinstance(s2, ast.AugAssign) and src_of(s2.target) == "ctx.i" and isinstance(s2.op, ast.Add):
-                            sh.skip_target = V(f"cur{ver[0]}") + lw().expr(s2.value, inner_env)
-                            sh.skip_assign_ok = True
-                            sh.skip_cond = "relative"
-            elif isinstance(st, ast.If):
-                sh.events.append("if " + src_of(st.test))
-                walk(st.body)
+def judge_processor(paths: List[Path], site: Site, kind: str, j: Judged, loop_ok: Callable[[Ev], Optional[str]]) -> None:
+    size_q = V("capacity") if kind == "array" else V("nbits")
+    start = V("cur")
+    seen_cases = set()
+    jump_paths: List[Tuple[Path, Poly, Poly]] = []
+    stay_paths: List[Path] = []
+    ahead_atoms: List[Poly] = []
+    for p in paths:
+        if p.done == "raise":
+            continue
+        ext, enc = truth(p, EXT), truth(p, ENC)
+        tops = list(enumerate(p.effects))
+        prefix = [(i, e, scratch(site, e.args[site.data_idx])) for i, e in tops if e.kind == "call" and e.name == site.base and len(e.args) > site.data_idx and scratch(site, e.args[site.data_idx]) is not None]
+        loops = [(i, e) for i, e in tops if e.kind == "loop" or (e.kind == "call" and e.name == site.base and not any(i == pi for pi, _, _ in prefix))]
+        sets = [(i, e) for i, e in tops if e.kind == "setattr" and e.name == "cur"]
+        seen_cases.add((ext, enc))
+        if ext is not True:
+            # not extensible (or not conditioned on it at all)
+            if ext is False:
+                if prefix:
+                    j.v("prefix-guard", "the 16-bit prefix is processed although the item is not extensible", witness="a non-extensible message/array gets the 16-bit prefix")
+                if sets:
+                    j.v("skip-guard", "the cursor is moved although the item is not extensible", witness="a traditional decoder skips")
             else:
-                sh.events.append(src_of(st)[:60])
+                if prefix or sets:
+                    j.v("prefix-guard", f"the prefix / skip is not conditioned on `extensible` (path under {p.guard_text()})", witness="a non-extensible message/array gets (or an extensible one loses) the 16-bit prefix")
+            if not loops:
+                j.u("children not recognised on the non-extensible path")
+            continue
+        # extensible
+        if len(prefix) != 1:
+            j.v("prefix-calls", f"an extensible item processes {len(prefix)} prefixes on the path under {p.guard_text()} (expected exactly one)", witness="encode writes no prefix / decode reads none")
+            continue
+        pi, pe, (skind, init, handle) = prefix[0]
+        if loops and pi > loops[0][0]:
+            j.v("children-order", "children are processed before the prefix")
+        if enc is None:
+            j.v("prefix", "the prefix direction is not selected by the encode flag", witness="encode writes no prefix / decode reads none")
+            continue
+        if enc:
+            if sets:
+                j.v("skip-guard", "the encoder moves its cursor after the children", construct=repr(sets[0][1]), witness="the encoder moves its cursor / a traditional decoder skips")
+            continue
+        # extensible, decoding
+        ahead_atoms.append(handle)
+        if not sets:
+            stay_paths.append(p)
+            continue
+        if len(sets) > 1:
+            j.u(f"{len(sets)} cursor assignments on one decode path")
+            continue
+        si, se = sets[0]
+        if loops and si < loops[-1][0]:
+            j.v("skip-order", "the cursor is moved before the children were processed")
+        new = se.args[-1]
+        old = se.kw.get("old")
+        if old is None:
+            j.u("cursor assignment without a recorded old value")
+            continue
+        jump_paths.append((p, new, old))
+    if (True, True) not in seen_cases or (True, False) not in seen_cases:
+        if not j.bad:
+            j.u(f"extensible encode / decode paths not both found (cases {sorted(map(str, seen_cases))})")
+        return
+    if not jump_paths:
+        j.v("skip-target", "an extensible item never moves the cursor when decoding: the bits a newer sender appended are not skipped", witness="sender message has one more field than the receiver's: the next field decodes from the wrong position")
+        return
+    ahead = ahead_atoms[0]
+    A = V("ahead")
+    NOW = V("now")
+    a_atom = single_atom(ahead)
 
-    walk(fn.body)
-    return sh
+    def norm(new: Poly, old: Poly) -> Poly:
+        t = _replace_atom(new, a_atom, A) if a_atom is not None else new
+        now_atom = single_atom(old)
+        return _replace_atom(t, now_atom, NOW) if now_atom is not None and old != start else t
 
-
-# ---------------------------------------------------------------------- Go
-
-
-def go_shape(fn: Node, extra_names: Optional[Dict[str, str]] = None) -> ProcShape:
-    sh = ProcShape()
-    ver = [0]
-    env: Dict[str, Poly] = {}
-
-    def lw() -> GoLower:
-        nm = {"ctx.i": f"cur{ver[0]}", "t.capacity": "capacity", "t.nbits": "nbits"}
-        nm.update(extra_names or {})
-        return GoLower({}, names=nm)
-
-    def has_loop(n: Any) -> bool:
-        if isinstance(n, dict):
-            if n.get("k") in ("for", "forrange"):
-                return True
-            return any(has_loop(v) for v in n.values())
-        if isinstance(n, list):
-            return any(has_loop(v) for v in n)
-        return False
-
-    def calls_in(n: Any) -> List[Node]:
-        out: List[Node] = []
-        if isinstance(n, dict):
-            if n.get("k") == "call":
-                out.append(n)  # type: ignore[arg-type]
-            for v in n.values():
-                out.extend(calls_in(v))
-        elif isinstance(n, list):
-            for v in n:
-                out.extend(calls_in(v))
-        return out
-
-    def assigns_ctx_i(n: Any) -> bool:
-        if isinstance(n, dict):
-            if n.get("k") == "assign" and go_src(n["lhs"][0]) == "ctx.i" and n["op"] == "=":
-                return True
-            return any(assigns_ctx_i(v) for v in n.values())
-        if isinstance(n, list):
-            return any(assigns_ctx_i(v) for v in n)
-        return False
-
-    for st in fn.body.stmts:
-        k = st.k
-        if k == "assign" and st.op in (":=", "=") and st.lhs[0].k == "id":
-            nm = st.lhs[0].name
-            env[nm] = lw().expr(st.rhs[0], env)
-            if go_src(st.rhs[0]) == "ctx.i":
-                sh.start_expr = nm
-                sh.start_before_prefix = sh.prefix_guard is None
-                sh.events.append(f"start {nm} := ctx.i")
-        elif k == "if" and "xtensible" in go_src(st.cond) and any("ExtensibleAhead" in go_src(c.f) for c in calls_in(st)):
-            sh.prefix_guard = go_src(st.cond)
-            sh.events.append("prefix")
-            inner = st.body.stmts
-            # if ctx.isEncode { Encode } else { ahead = Decode }
-            if len(inner) == 1 and inner[0].k == "if" and go_src(inner[0].cond) in ("ctx.isEncode", "ctx.is_encode") and inner[0].orelse is not None:
-                enc = calls_in(inner[0].body)
-                dec = calls_in(inner[0].orelse)
-                if enc and "Encode" in go_src(enc[0].f) and "ExtensibleAhead" in go_src(enc[0].f) and "Decode" not in go_src(enc[0].f):
-                    sh.encode_call = go_src(enc[0].f)
-                else:
-                    sh.problems.append("the encode branch does not write the prefix")
-                if dec and "Decode" in go_src(dec[0].f) and "ExtensibleAhead" in go_src(dec[0].f):
-                    sh.decode_call = go_src(dec[0].f)
-                    for s2 in inner[0].orelse.stmts:
-                        if s2.k == "assign" and s2.lhs[0].k == "id":
-                            env[s2.lhs[0].name] = V("ahead")
-                            sh.decode_guard_ok = True
-                else:
-                    sh.problems.append("the decode branch does not read the prefix")
+    targets = {show(norm(n, o)): (n, o) for _, n, o in jump_paths}
+    if len(targets) != 1:
+        j.u(f"several different skip targets: {sorted(targets)}")
+        return
+    (new, old), = targets.values()
+    t = norm(new, old)
+    j.info["skip_target"] = show(t)
+    if any(o == start for _, _, o in jump_paths):
+        j.v("start-order", "the cursor has not advanced between the start of the item and the skip (children not processed through this cursor)")
+        return
+    # guard: every forward move must pass
+    for p, n_, o_ in jump_paths:
+        reg = region(p, n_ - o_)
+        j.info.setdefault("jump_regions", []).append(sorted(reg) if reg else None)
+    deltas = [n_ - o_ for _, n_, o_ in jump_paths]
+    for p in stay_paths:
+        reg = None
+        for d in deltas:
+            reg = reg or region(p, d)
+        if reg is None:
+            j.u(f"a decode path of an extensible item leaves the cursor alone under {p.guard_text()}, not conditioned on target vs cursor")
+        elif "gt" in reg:
+            j.v("skip-cond", f"the guard on the jump lets a forward move (target > cursor) fall through without jumping (path under {p.guard_text()})", construct=" and ".join(p.guard_text()), witness="an extended sender: the receiver does not skip the extra bits")
+    # target
+    if kind == "message":
+        want = start + A
+        if t != want:
+            if A not in [Poly.atom(a) for a in _all_atoms(t)]:
+                j.v("skip-target", f"message skip target is `{show(t)}`: it does not depend on the prefix that was read", construct=show(t), witness="sender message has one more field than the receiver's")
+            elif _is_start_late(t, A):
+                j.v("start-order", "the start position is read after the prefix was processed: the skip target is 16 bits late", construct=show(t), witness="any extended sender: fields after the extensible item decode 16 bits off")
             else:
-                sh.problems.append("prefix block is not `if ctx.isEncode { encode } else { ahead = decode }`")
-            ver[0] += 1
-        elif k in ("for", "forrange"):
-            if k == "for":
-                sh.children = f"{go_src(st.init.lhs[0])} := {go_src(st.init.rhs[0])}; {go_src(st.cond)}; {go_src(st.post.x)}{st.post.op}" if st.init is not None and st.post is not None and st.post.k == "incdec" else "?"
+                j.v("skip-target", f"message skip target is `{show(t)}`, the layout rule gives `start + ahead` (the sender's own bit size counted from the prefix)", construct=show(t), witness="sender message has one more field than the receiver's: the next field decodes from the wrong position")
+    else:
+        cap = V("capacity")
+        consumed = NOW - start - C(16)
+        accepted = [start + C(16) + A * call(dv, consumed, cap) for dv in ("floordiv", "truediv", "div")]
+        if not any(t == a for a in accepted):
+            def all_terms_have_ahead(pp: Poly) -> bool:
+                return bool(pp.terms) and all(any(a == ("var", "ahead") and e == 1 for a, e in m) for m in pp.terms)
+
+            rest = t - start
+            if t == start + A * cap or t == start + C(16) + A * cap:
+                j.v("skip-target", "array skip target multiplies the sender's capacity with the receiver's capacity: an extensible array of sender capacity a occupies 16 + a * element-bits", construct=show(t), witness="sender byte[9]', receiver byte[2]' followed by uint8 f: f decodes from bit 18 instead of bit 88")
+            elif _is_start_late(t, A):
+                j.v("start-order", "the start position is read after the prefix was processed: the skip target is 16 bits late", construct=show(t))
+            elif all_terms_have_ahead(rest):
+                j.v("skip-target", "array skip target is `start + ahead * X` without the 16 prefix bits: the sender's array occupies 16 + a * element-bits counted from the start position", construct=show(t), witness="sender byte[3]', receiver byte[2]' followed by uint8 f: f decodes 16 bits early")
+            elif all_terms_have_ahead(rest - C(16)) and ("var", "now") not in _all_atoms(rest - C(16)):
+                j.v("skip-target", "array skip target is `start + 16 + ahead * X` where X does not come from the bits the own elements just consumed: the receiver's declared element width differs from the sender's when the element type is itself extensible and grew", construct=show(t), witness="S1 -> S2 (array elements, extensible messages, get a field) -> S3 (capacity grows): S1 decoding S3 data lands short")
+            elif not all_terms_have_ahead(rest - C(16)):
+                j.v("skip-target", "array skip target is not of the form start + 16 + ahead * (bits per element)", construct=show(t), witness="any extended array sender")
             else:
-                sh.children = "range " + go_src(st.range.x)
-            sh.children_after_prefix = sh.prefix_guard is not None
-            sh.events.append("children " + sh.children + ": " + " ; ".join(go_src(s.x) if s.k == "exprstmt" else s.k for s in st.body.stmts))
-            ver[0] += 1
-        elif k == "if" and assigns_ctx_i(st):
-            sh.skip_guard = go_src(st.cond)
-            sh.events.append("skip")
-            inner_env = dict(env)
-            for s2 in st.body.stmts:
-                if s2.k == "assign" and s2.lhs[0].k == "id":
-                    inner_env[s2.lhs[0].name] = lw().expr(s2.rhs[0], inner_env)
-                elif s2.k == "if":
-                    sh.skip_cond = go_src(s2.cond)
-                    for s3 in s2.body.stmts:
-                        if s3.k == "assign" and go_src(s3.lhs[0]) == "ctx.i":
-                            sh.skip_target = lw().expr(s3.rhs[0], inner_env)
-                            sh.skip_assign_ok = True
-                elif s2.k == "assign" and go_src(s2.lhs[0]) == "ctx.i":
-                    sh.skip_target = lw().expr(s2.rhs[0], inner_env)
-                    sh.skip_assign_ok = True
-        elif k == "if" and has_loop(st):
-            sh.children = "complex: if " + go_src(st.cond)
-            sh.children_after_prefix = sh.prefix_guard is not None
-            sh.events.append("children " + sh.children)
-            ver[0] += 1
-        elif k == "if":
-            sh.events.append("if " + go_src(st.cond))
-        elif k == "exprstmt":
-            sh.events.append(go_src(st.x))
-        elif k == "defer":
-            sh.events.append("defer " + go_src(st.call))
-        else:
-            sh.events.append(k)
-    return sh
+                j.u(f"array skip target `{show(t)}` is not one of the enumerated forms")
 
 
-# ------------------------------------------------------------------ judge
+def _replace_atom(p: Poly, atom: Any, by: Poly) -> Poly:
+    """Replace every occurrence of `atom` (also nested inside other atoms)."""
+    from .normal import rebuild
 
-
-def _accepted_array_targets(start: Poly, cur_now: Poly) -> List[Tuple[Poly, str]]:
-    ahead, cap = V("ahead"), V("capacity")
-    consumed = cur_now - start - C(16)
-    out = []
-    for divname in ("floordiv", "div", "truediv"):
-        out.append((start + C(16) + ahead * call(divname, consumed, cap), "start + 16 + ahead * ((consumed - 16) / capacity)"))
+    out = Poly.const(0)
+    for m, c in p.terms.items():
+        term = Poly.const(c)
+        for a, e in m:
+            if a == atom:
+                pa = by
+            else:
+                new: List[Any] = [a[0]]
+                for x in a[1:]:
+                    if isinstance(x, Poly):
+                        new.append(_replace_atom(x, atom, by))
+                    elif isinstance(x, tuple):
+                        new.append(tuple(_replace_atom(y, atom, by) if isinstance(y, Poly) else y for y in x))
+                    else:
+                        new.append(x)
+                pa = rebuild(tuple(new))
+            for _ in range(e):
+                term = term * pa
+        out = out + term
     return out
 
 
-def _all_vars(p: Poly) -> list:
+def _all_atoms(p: Poly) -> list:
     out = []
 
     def rec(q: Poly) -> None:
         for m in q.terms:
             for a, _ in m:
-                if a[0] == "var":
-                    out.append(a)
+                out.append(a)
                 for x in a[1:]:
                     if isinstance(x, Poly):
                         rec(x)
@@ -280,203 +280,278 @@ def _all_vars(p: Poly) -> list:
     return out
 
 
-def _conjuncts(s: str) -> set:
-    import re as _re
-
-    parts = _re.split(r"\s+and\s+|&&", s)
-    out = set()
-    for p in parts:
-        p = p.strip()
-        while p.startswith("(") and p.endswith(")"):
-            p = p[1:-1].strip()
-        if p.startswith("!"):
-            p = "not " + p[1:].strip()
-        p = _re.sub(r"^not\s*\((.*)\)$", r"not \1", p)
-        out.add(p)
-    return out
+def _is_start_late(t: Poly, A: Poly) -> bool:
+    """The target is built from a cursor value read after the prefix (cur#1)
+    instead of the entry value."""
+    names = {a[1] for a in _all_atoms(t) if a[0] == "var"}
+    return "cur" not in names and any(n.startswith("cur#") for n in names)
 
 
-def judge(res: RuleResult, sh: ProcShape, kind: str, lang: str, file: str, fname: str, line: int, neg_encode: Tuple[str, ...]) -> None:
-    part = lang
+# ------------------------------------------------------------------ prefix (C3)
 
-    def bad(tag: str, msg: str, construct: str = "", witness: str = "") -> None:
-        f = Finding("D3", file, line, fname, construct, msg, witness=witness, tag=f"{lang}:{fname}:{tag}")
+
+def judge_prefix(paths: List[Path], site: Site, kind: str, j: Judged) -> None:
+    size_q = V("capacity") if kind == "array" else V("nbits")
+    n = 0
+    for p in paths:
+        if truth(p, EXT) is not True:
+            continue
+        enc = truth(p, ENC)
+        for e in p.effects:
+            if not (e.kind == "call" and e.name == site.base and len(e.args) > site.data_idx):
+                continue
+            sc = scratch(site, e.args[site.data_idx])
+            if sc is None:
+                continue
+            n += 1
+            skind, init, handle = sc
+            if e.args[0] != C(16):
+                j.v("width", f"the prefix is processed as `{show(e.args[0])}` bits, not 16", construct=show(e.args[0]), witness="every extensible item shifts all following fields")
+            if skind.startswith("ref:") and skind != "ref:uint16_t":
+                j.v("width", f"the prefix is staged in a `{skind[4:]}` variable, not uint16_t", witness="big-endian staging reverses the wrong number of bytes")
+            if site.di_cls is not None:
+                di = new_parts(e.args[2])
+                if di is None or di[0] != site.di_cls:
+                    j.u("prefix indexer is not a fresh DataIndexer")
+                elif di[1].get(site.di_field) != C(1):
+                    j.v("field-number", f"the scratch accessor is addressed with field number `{show(di[1].get(site.di_field)) if di[1].get(site.di_field) is not None else None}` (the scratch accessor answers only to 1): the prefix reads/writes as 0", witness="every prefix is 0")
+            if enc is True:
+                if init is None or init != size_q:
+                    j.v("data", f"the encoder writes `{show(init) if init is not None else 'nothing'}` as the prefix, expected the item's {'capacity' if kind == 'array' else 'bit size'}", construct=show(init) if init is not None else "", witness="receivers skip by a wrong amount")
+            elif enc is False:
+                if init is not None and init != C(0):
+                    j.v("return", f"the decoder reads the prefix into a variable initialised with `{show(init)}` (chunks are OR-ed in: it must start at 0)", construct=show(init))
+    j.info["prefix_events"] = n
+    if n == 0:
+        j.u("no prefix event found on any extensible path")
+
+
+# ------------------------------------------------------------------- children
+
+
+def _calls(p: Path) -> List[Ev]:
+    return [e for e in p.effects if e.kind == "call"]
+
+
+def loop_array_py(site: Site) -> Callable[[Ev], Optional[str]]:
+    def ok(lp: Ev) -> Optional[str]:
+        return None
+
+    return ok
+
+
+def check_children(paths: List[Path], site: Site, kind: str, j: Judged) -> None:
+    """language-specific: how children are visited"""
+    lang = site.lang
+    for p in paths:
+        if p.done == "raise":
+            continue
+        loops = [e for e in p.effects if e.kind == "loop"]
+        if lang == "c" and kind == "array":
+            return  # element dispatch incl. the batch path is judged by EC2 / CA2
+        if len(loops) != 1:
+            j.u(f"{len(loops)} loops on a processor path (expected the one child loop)")
+            return
+        lp = loops[0]
+        it = lp.args[0] if lp.args else None
+        bodies: List[Path] = lp.sub or []
+        if kind == "array":
+            if it != call("range", V("capacity")):
+                a = single_atom(it) if it is not None else None
+                if a is not None and a[0] == "call" and a[1] == "range":
+                    j.v("children", f"array elements are visited for `{show(it)}`, not k = 0..capacity-1", construct=show(it), witness="byte[3]: an element is skipped / one too many is processed")
+                else:
+                    j.u(f"array element loop iterates `{show(it) if it is not None else None}`")
+                return
+            for b in bodies:
+                cs = _calls(b)
+                repl = [c for c in cs if c.name in ("index_stack_replace", "IndexReplace")]
+                proc = [c for c in cs if c.name in ("process", "Process")]
+                if len(proc) != 1 or len(repl) != 1:
+                    j.v("children", "array elements are not processed as: set the index stack top to k, then process the element once", construct=str(cs), witness="byte[3]: every element reads/writes element 0")
+                    return
+                if cs.index(repl[0]) > cs.index(proc[0]) or repl[0].args[:1] != [V("k")] and (not repl[0].args or single_atom(repl[0].args[0]) is None or single_atom(repl[0].args[0])[0] != "var"):
+                    j.v("children", "the index stack top is not set to the loop counter before the element is processed", construct=str(cs), witness="byte[3]: every element reads/writes element 0")
+                    return
+                lv = _loop_var(lp)
+                if lv is not None and repl[0].args and repl[0].args[0] != V(lv):
+                    j.v("children", f"the index stack top is set to `{show(repl[0].args[0])}`, not the loop counter", construct=str(cs), witness="byte[3]: every element reads/writes element 0")
+                    return
+                rv = proc[0].recv
+                if rv is None or show(rv) not in ("self.element_processor", "t.elementProcessor"):
+                    j.u(f"element processor receiver is `{show(rv) if rv is not None else None}`")
+            # index stack push / pop around the loop
+            names = [e.name for e in p.effects]
+            if lang == "py":
+                ent = [i for i, e in enumerate(p.effects) if e.kind == "enter" and "index_stack_maintain" in e.name]
+                ext = [i for i, e in enumerate(p.effects) if e.kind == "exit" and "index_stack_maintain" in e.name]
+                li = p.effects.index(lp)
+                if not (ent and ext and ent[0] < li < ext[-1]):
+                    j.v("index-stack", "the array index stack is not pushed/popped around the element loop", witness="nested arrays address the wrong element")
+            elif lang == "go":
+                li = p.effects.index(lp)
+                up = [i for i, e in enumerate(p.effects) if e.kind == "call" and e.name == "IndexStackUp"]
+                down = [i for i, e in enumerate(p.effects) if e.kind == "call" and e.name in ("IndexStackDown__deferred", "IndexStackDown")]
+                if not (up and down and up[0] < li):
+                    j.v("index-stack", "the array index stack is not pushed and (deferred) popped", witness="nested arrays address the wrong element")
+        else:
+            if lang in ("py", "go"):
+                if it is None or show(it) not in ("self.field_processors", "t.fieldDescriptors"):
+                    j.u(f"field loop iterates `{show(it) if it is not None else None}`")
+                    return
+                lv = _loop_var(lp)
+                for b in bodies:
+                    proc = [c for c in _calls(b) if c.name in ("process", "Process")]
+                    if len(proc) != 1 or proc[0].recv is None or (lv is not None and proc[0].recv != V(lv)):
+                        j.v("children", "fields are not processed once each in list order", construct=str(_calls(b)))
+                        return
+            else:
+                if it != call("range", V("descriptor.nfields")):
+                    a = single_atom(it) if it is not None else None
+                    if a is not None and a[0] == "call" and a[1] == "range":
+                        j.v("children", f"fields are visited for `{show(it)}`, not k = 0..nfields-1", construct=show(it), witness="a message with two fields: one is processed twice / skipped")
+                    else:
+                        j.u(f"field loop iterates `{show(it) if it is not None else None}`")
+                    return
+                lv = _loop_var(lp) or "k"
+                want = Poly.atom(("load", "descriptor.field_descriptors", V(lv)))
+                for b in bodies:
+                    proc = [c for c in _calls(b) if c.name == "BpEndecodeMessageField"]
+                    if len(proc) != 1:
+                        j.v("children", "fields are not processed once each through BpEndecodeMessageField", construct=str(_calls(b)), witness="a message with two fields: one is processed twice / skipped")
+                        return
+                    if proc[0].args[0] != want:
+                        j.v("children", f"field k is processed with descriptor `{show(proc[0].args[0])}`, not field_descriptors[k]", construct=show(proc[0].args[0]), witness="a message with two fields: one is processed twice / skipped")
+                        return
+
+
+def _loop_var(lp: Ev) -> Optional[str]:
+    st = lp.node
+    if isinstance(st, ast.For) and isinstance(st.target, ast.Name):
+        return st.target.id
+    return None
+
+
+# ----------------------------------------------------------------------- rules
+
+
+def _emit(res: RuleResult, rid: str, part: str, site: Site, fname: str, line: int, j: Judged, tagp: str) -> None:
+    for tag, msg, construct, witness in j.bad:
+        f = Finding(rid, site.rel, line, fname, construct, msg, witness=witness, tag=f"{tagp}:{fname}:{tag}")
         f.part = part
         res.bad(f)
+    for u in j.unsure:
+        res.unsure(f"{rid}: {tagp}:{fname}: {u}")
 
-    res.inst(part=part, function=fname, kind=kind, events=sh.events, skip_target=show(sh.skip_target) if sh.skip_target is not None else None, skip_cond=sh.skip_cond)
-    if sh.start_expr is None and sh.skip_target is not None and sh.prefix_guard is not None:
-        sh.start_expr = "<none>"
-        sh.start_before_prefix = True
-        sh.problems.append("no start position is recorded before the prefix: the skip cannot be an absolute jump to start + (sender size)")
-    if sh.start_expr is None or sh.prefix_guard is None or sh.children is None or sh.skip_guard is None or sh.skip_target is None:
-        res.unsure(f"D3: {lang}:{fname}: start/prefix/children/skip structure not recognised (shape gate): {sh.events}")
-        return
-    if not sh.start_before_prefix:
-        bad("start-order", "the start position is read after the prefix was processed: the skip target is 16 bits late", witness="any extended sender: fields after the extensible item decode 16 bits off")
-    for p in sh.problems:
-        bad("prefix", p, witness="encode writes no prefix / decode reads none")
-    if sh.encode_call is None or sh.decode_call is None or not sh.decode_guard_ok:
-        bad("prefix-calls", "the prefix is not both written on encode and read into `ahead` on decode")
-    if not sh.children_after_prefix:
-        bad("children-order", "children are processed before the prefix")
-    ext = {"self.extensible", "t.extensible", "descriptor.extensible"}
-    if sh.prefix_guard not in ext:
-        bad("prefix-guard", f"the prefix is processed under `{sh.prefix_guard}`, expected only under `extensible`", construct=sh.prefix_guard or "", witness="a non-extensible message/array gets (or an extensible one loses) the 16-bit prefix")
-    conj = _conjuncts(sh.skip_guard or "")
-    if not (len(conj) == 2 and (conj & ext) and (conj & {"not ctx.is_encode", "not ctx.isEncode"})):
-        bad("skip-guard", f"the skip runs under `{sh.skip_guard}`, expected `extensible and not encoding`", construct=sh.skip_guard or "", witness="the encoder moves its cursor / a traditional decoder skips")
-    # skip condition must let every forward move through
-    now = V("cur2")
-    if sh.skip_cond is not None and sh.skip_cond != "relative":
-        c = sh.skip_cond.replace(" ", "")
-        if c not in ("ito>=ctx.i", "ito>ctx.i", "ctx.i<=ito", "ctx.i<ito"):
-            bad("skip-cond", f"the guard on the jump is `{sh.skip_cond}`; it must let every forward move through (ito >= ctx.i)", construct=sh.skip_cond, witness="an extended sender: the receiver does not skip the extra bits")
-    start = V("cur0")
-    t = sh.skip_target
-    if kind == "message":
-        want = start + V("ahead")
-        if t != want:
-            bad("skip-target", f"message skip target is `{show(t)}`, the layout rule gives `start + ahead` (the sender's own bit size counted from the prefix)", construct=show(t), witness="sender message has one more field than the receiver's: the next field decodes from the wrong position")
-    else:
-        accepted = _accepted_array_targets(start, now)
-        if not any(t == a for a, _ in accepted):
-            def all_terms_have_ahead(p: Poly) -> bool:
-                return bool(p.terms) and all(any(a == ("var", "ahead") and e == 1 for a, e in m) for m in p.terms)
 
-            if t == start + V("ahead") * V("capacity") or t == start + C(16) + V("ahead") * V("capacity"):
-                bad("skip-target", "array skip target multiplies the sender's capacity with the receiver's capacity: an extensible array of sender capacity a occupies 16 + a * element-bits", construct=show(t), witness="sender byte[9]', receiver byte[2]' followed by uint8 f: f decodes from bit 18 instead of bit 88; same schema bool[10]' + uint8: decode jumps to bit 100 of a 5-byte buffer (IndexError)")
-            elif all_terms_have_ahead(t - start):
-                bad("skip-target", "array skip target is `start + ahead * X` without the 16 prefix bits: the sender's array occupies 16 + a * element-bits counted from the start position", construct=show(t), witness="sender byte[3]', receiver byte[2]' followed by uint8 f: f decodes 16 bits early")
-            elif all_terms_have_ahead(t - start - C(16)) and not any(a == ("var", "cur2") for a in _all_vars(t - start - C(16))):
-                bad("skip-target", "array skip target is `start + 16 + ahead * X` where X does not come from the bits the own elements just consumed: the receiver's declared element width differs from the sender's when the element type is itself extensible and grew", construct=show(t), witness="S1 -> S2 (array elements, extensible messages, get a field) -> S3 (capacity grows): S1 decoding S3 data lands short")
-            elif not all_terms_have_ahead(t - start - C(16)):
-                bad("skip-target", "array skip target is not of the form start + 16 + ahead * (bits per element)", construct=show(t), witness="any extended array sender")
-            else:
-                # anything that is not start + 16 + ahead * X
-                res.unsure(f"D3: {lang}:{fname}: array skip target `{show(t)}` is not one of the enumerated forms {sorted({d for _, d in accepted})}")
+def _proc_paths(L: Lang, site: Site, key: str, extra: Sequence[str] = ()) -> List[Path]:
+    fl = flow_for(L, site, key, extra)
+    return fl.run(L.func(key))
+
+
+PROC_SITES = (
+    (PY, py_runtime, (("Array.process", "array"), ("MessageProcessor.process", "message")), ()),
+    (GO, go_runtime, (("Array.Process", "array"), ("MessageProcessor.Process", "message")), ()),
+)
 
 
 @rule("D3", "extensible processors: start before prefix, prefix guarded, children in order, skip only on decode to the layout-rule target")
 def d3(repo: Repo) -> RuleResult:
     res = RuleResult("D3", floor=4)
-    m = get_model(repo)
-    bp = m.mod("bitprotolib/bp.py")
-    for cname, kind in (("Array", "array"), ("MessageProcessor", "message")):
-        c = bp.classes.get(cname)
-        if c is None or "process" not in c.methods:
-            res.unsure(f"D3: bp.py:{cname}.process vanished")
+    for site, rt, keys, extra in PROC_SITES:
+        try:
+            L = rt(repo)
+        except Inconclusive as e:
+            res.unsure(f"D3: {site.lang}: {e}")
             continue
-        fn = c.methods["process"].node
-        sh = py_shape(fn, "self.capacity")
-        judge(res, sh, kind, "py", BP, f"{cname}.process", fn.lineno, ("not ctx.is_encode",))
-        # children
-        if kind == "array":
-            ok = sh.children == "range(self.capacity)" and any("di.index_stack_replace(k)" in e and "self.element_processor.process(ctx, di, accessor)" in e for e in sh.events)
+        for key, kind in keys:
+            try:
+                fn = L.func(key)
+                paths = _proc_paths(L, site, key, extra)
+            except Inconclusive as e:
+                res.unsure(f"D3: {site.lang}:{key}: {e}")
+                continue
+            j = Judged()
+            judge_processor(paths, site, kind, j, lambda e: None)
+            check_children(paths, site, kind, j)
+            res.inst(part=site.lang, function=key, kind=kind, paths=len(paths), **j.info)
+            _emit(res, "D3", site.lang, site, key, fn.lineno, j, site.lang)
+        # a field is processed with an indexer built from its own number
+        try:
+            key = "MessageFieldProcessor.process" if site.lang == "py" else "MessageFieldProcessor.Process"
+            fn = L.func(key)
+            fl = L.flow("MessageFieldProcessor", primitives=(site.base,), names=site.names)
+            ok = True
+            why = ""
+            for p in fl.run(fn):
+                cs = [c for c in _calls(p) if c.name in ("process", "Process")]
+                if len(cs) != 1 or len(cs[0].args) < 2:
+                    ok, why = False, str(_calls(p))
+                    continue
+                di = new_parts(cs[0].args[1])
+                num = None
+                if di is not None:
+                    num = di[1].get(site.di_field)
+                if di is None or di[0] != site.di_cls or num is None or show(num) not in ("self.field_number", "t.fieldNumber"):
+                    ok, why = False, show(cs[0].args[1])
+            res.inst(part=site.lang, function=key, ok=ok)
             if not ok:
-                f = Finding("D3", BP, fn.lineno, f"{cname}.process", str(sh.children), "array elements are not processed as k = 0..capacity-1 with the index stack top set to k before each element", witness="byte[3]: every element reads/writes element 0", tag=f"py:{cname}:children")
-                f.part = "py"
+                f = Finding("D3", site.rel, fn.lineno, key, why, "a field is not processed with an indexer built from its own field number", witness="every field reads / writes field 0", tag=f"{site.lang}:MessageFieldProcessor")
+                f.part = site.lang
                 res.bad(f)
-            if not any(e.startswith("with di.index_stack_maintain()") for e in sh.events):
-                f = Finding("D3", BP, fn.lineno, f"{cname}.process", "", "the array index stack is not pushed/popped around the element loop", tag=f"py:{cname}:index-stack")
-                f.part = "py"
-                res.bad(f)
-        else:
-            ok = sh.children == "self.field_processors" and any("field_processor.process(ctx, di, accessor)" in e for e in sh.events)
-            if not ok:
-                f = Finding("D3", BP, fn.lineno, f"{cname}.process", str(sh.children), "fields are not processed in list order", tag=f"py:{cname}:children")
-                f.part = "py"
-                res.bad(f)
-    mf = bp.classes.get("MessageFieldProcessor")
-    if mf is not None and "process" in mf.methods:
-        t = src_of(mf.methods["process"].node)
-        res.inst(part="py", function="MessageFieldProcessor.process")
-        if "di = DataIndexer(field_number=self.field_number)" not in t or "self.type_processor.process(ctx, di, accessor)" not in t:
-            f = Finding("D3", BP, mf.methods["process"].node.lineno, "MessageFieldProcessor.process", "", "a field is not processed with an indexer built from its own field number", tag="py:MessageFieldProcessor")
-            f.part = "py"
-            res.bad(f)
-    # Go
-    try:
-        g = get_go(repo)
-        for key, kind in (("Array.Process", "array"), ("MessageProcessor.Process", "message")):
-            fn = g.func(key)
-            sh = go_shape(fn)
-            judge(res, sh, kind, "go", GO_RT, key, fn.line, ("!ctx.isEncode",))
-            if kind == "array":
-                ok = sh.children == "k := 0; k < t.capacity; k++" and any("di.IndexReplace(k)" in e and "t.elementProcessor.Process(ctx, di, accessor)" in e for e in sh.events)
-                if not ok:
-                    f = Finding("D3", GO_RT, fn.line, key, str(sh.children), "array elements are not processed as k = 0..capacity-1 with the index stack top set to k", tag="go:Array:children")
-                    f.part = "go"
-                    res.bad(f)
-                if not ("di.IndexStackUp()" in sh.events and "defer di.IndexStackDown()" in sh.events):
-                    f = Finding("D3", GO_RT, fn.line, key, "", "the array index stack is not pushed and (deferred) popped", tag="go:Array:index-stack")
-                    f.part = "go"
-                    res.bad(f)
-            else:
-                ok = sh.children == "range t.fieldDescriptors" and any("fieldDescriptor.Process(ctx, di, accessor)" in e for e in sh.events)
-                if not ok:
-                    f = Finding("D3", GO_RT, fn.line, key, str(sh.children), "fields are not processed in list order", tag="go:MessageProcessor:children")
-                    f.part = "go"
-                    res.bad(f)
-        mfp = g.func("MessageFieldProcessor.Process")
-        txt = " ; ".join(go_src(s.rhs[0]) if s.k == "assign" else (go_src(s.x) if s.k == "exprstmt" else s.k) for s in mfp.body.stmts)
-        res.inst(part="go", function="MessageFieldProcessor.Process", body=txt)
-        if "NewDataIndexer(t.fieldNumber)" not in txt or "t.typeProcessor.Process(ctx, di, accessor)" not in txt:
-            f = Finding("D3", GO_RT, mfp.line, "MessageFieldProcessor.Process", txt, "a field is not processed with an indexer built from its own field number", tag="go:MessageFieldProcessor")
-            f.part = "go"
-            res.bad(f)
-    except Inconclusive as e:
-        res.unsure(f"D3: go: {e}")
+        except Inconclusive as e:
+            res.unsure(f"D3: {site.lang}: {e}")
     return res
-
-
-# --------------------------------------------------------------------------
-# C3 prefix width / D7 alias transparency
-# --------------------------------------------------------------------------
 
 
 @rule("C3", "the 16-bit prefix: width literal, what is written (nbits / capacity), what is returned, accessor field number")
 def c3(repo: Repo) -> RuleResult:
     res = RuleResult("C3", floor=8)
     m = get_model(repo)
-    bp = m.mod("bitprotolib/bp.py")
-    for cname, data in (("Array", "self.capacity"), ("MessageProcessor", "self.nbits")):
-        c = bp.classes.get(cname)
-        if c is None:
-            res.unsure(f"C3: bp.py:{cname} vanished")
+    for site, rt, keys, extra in PROC_SITES:
+        try:
+            L = rt(repo)
+        except Inconclusive as e:
+            res.unsure(f"C3: {site.lang}: {e}")
             continue
-        for meth, is_enc in (("encode_extensible_ahead", True), ("decode_extensible_ahead", False)):
-            f = c.methods.get(meth)
-            if f is None:
-                res.unsure(f"C3: bp.py:{cname}.{meth} vanished")
+        for key, kind in keys:
+            try:
+                fn = L.func(key)
+                paths = _proc_paths(L, site, key, extra)
+            except Inconclusive as e:
+                res.unsure(f"C3: {site.lang}:{key}: {e}")
                 continue
-            t = src_of(f.node)
-            res.inst(part="py", function=f"{cname}.{meth}")
-            calls = [n for n in ast.walk(f.node) if isinstance(n, ast.Call) and src_of(n.func) == "process_base_type"]
-            if len(calls) != 1 or src_of(calls[0].args[0]) != "16":
-                fd = Finding("C3", BP, f.node.lineno, f"{cname}.{meth}", src_of(calls[0]) if calls else "", "the prefix is not processed as exactly 16 bits", witness="every extensible item shifts all following fields", tag=f"py:{cname}.{meth}:width")
-                fd.part = "py"
-                res.bad(fd)
-            if "DataIndexer(field_number=1)" not in t:
-                fd = Finding("C3", BP, f.node.lineno, f"{cname}.{meth}", "", "the scratch accessor is addressed with a field number other than 1 (IntAccessor answers only to 1): the prefix reads/writes as 0", tag=f"py:{cname}.{meth}:field-number")
-                fd.part = "py"
-                res.bad(fd)
-            if is_enc and f"IntAccessor(data={data})" not in t:
-                fd = Finding("C3", BP, f.node.lineno, f"{cname}.{meth}", "", f"the encoder does not write {data} as the prefix", witness="receivers skip by a wrong amount", tag=f"py:{cname}.{meth}:data")
-                fd.part = "py"
-                res.bad(fd)
-            if not is_enc and "return accessor.data" not in t:
-                fd = Finding("C3", BP, f.node.lineno, f"{cname}.{meth}", "", "the decoder does not return what was read", tag=f"py:{cname}.{meth}:return")
-                fd.part = "py"
-                res.bad(fd)
-    ia = bp.classes.get("IntAccessor")
-    if ia is not None:
-        t = src_of(ia.node)
-        res.inst(part="py", function="IntAccessor")
-        if "if di.field_number == 1:\n            self.data |= int(b) << lshift" not in t or "return self.data >> rshift & 255" not in t:
-            fd = Finding("C3", BP, ia.node.lineno, "IntAccessor", "", "IntAccessor does not OR chunks into / read bytes from its data for field number 1", tag="py:IntAccessor")
-            fd.part = "py"
-            res.bad(fd)
+            j = Judged()
+            judge_prefix(paths, site, kind, j)
+            res.inst(part=site.lang, function=key, kind=kind, **j.info)
+            _emit(res, "C3", site.lang, site, key, fn.lineno, j, site.lang)
+            # the prefix coders exist under their documented names
+            for meth in (("encode_extensible_ahead", "decode_extensible_ahead") if site.lang == "py" else ("EncodeExtensibleAhead", "DecodeExtensibleAhead")):
+                res.inst(part=site.lang, function=f"{key.split('.')[0]}.{meth}", present=L.has(f"{key.split('.')[0]}.{meth}"))
+        # scratch accessor: ORs chunks into / reads bytes from its data for field number 1
+        try:
+            acc = site.acc_cls or ""
+            setk, getk = ("bp_set_byte", "bp_get_byte") if site.lang == "py" else ("BpSetByte", "BpGetByte")
+            fl = L.flow(acc, names={}, primitives=())
+            sfn, gfn = L.func(f"{acc}.{setk}"), L.func(f"{acc}.{getk}")
+            me = sfn.args.args[0].arg
+            ok_set = False
+            for p in fl.run(sfn):
+                if _field_is(p, site, 1):
+                    for e in p.effects:
+                        if e.kind == "setattr" and e.name == f"{me}.data" and e.op == "|=" and e.args[0] == V("b") * pow2(V("lshift")):
+                            ok_set = True
+            ok_get = False
+            for p in fl.run(gfn):
+                if _field_is(p, site, 1) and p.ret is not None and p.ret == trunc8(shr(V(f"{gfn.args.args[0].arg}.data"), V("rshift"))):
+                    ok_get = True
+            res.inst(part=site.lang, function=acc, set_ok=ok_set, get_ok=ok_get)
+            if not (ok_set and ok_get):
+                f = Finding("C3", site.rel, sfn.lineno, acc, "", f"{acc} does not OR (chunk << lshift) into / read (data >> rshift) & 255 from its data for field number 1", witness="every prefix is 0", tag=f"{site.lang}:{acc}")
+                f.part = site.lang
+                res.bad(f)
+        except Inconclusive as e:
+            res.unsure(f"C3: {site.lang}: {e}")
     # _ast ahead_nbits
     for cname in ("Array", "Message"):
         c = m.cls(cname, "_ast.py")
@@ -487,132 +562,102 @@ def c3(repo: Repo) -> RuleResult:
             fd = Finding("C3", AST_REL, f.node.lineno if f else 0, f"{cname}.ahead_nbits", str(rets), "the size arithmetic counts a prefix other than 16 bits", witness="buffer length / following offsets disagree with the runtimes", tag=f"ast:{cname}.ahead_nbits")
             fd.part = "ast"
             res.bad(fd)
-    # Go
-    try:
-        g = get_go(repo)
-        for recv, data in (("Array", "t.capacity"), ("MessageProcessor", "t.nbits")):
-            for meth, is_enc in (("EncodeExtensibleAhead", True), ("DecodeExtensibleAhead", False)):
-                fn = g.func(f"{recv}.{meth}")
-                parts = []
-                for s in fn.body.stmts:
-                    if s.k == "assign":
-                        parts.append(f"{go_src(s.lhs[0])} {s.op} {go_src(s.rhs[0])}")
-                    elif s.k == "exprstmt":
-                        parts.append(go_src(s.x))
-                    elif s.k == "return":
-                        parts.append("return " + ", ".join(go_src(v) for v in s.vals))
-                txt = " ; ".join(parts)
-                res.inst(part="go", function=f"{recv}.{meth}", body=txt)
-                if "processBaseType(16, ctx, di, accessor)" not in txt:
-                    fd = Finding("C3", GO_RT, fn.line, f"{recv}.{meth}", txt, "the prefix is not processed as exactly 16 bits", tag=f"go:{recv}.{meth}:width")
-                    fd.part = "go"
-                    res.bad(fd)
-                if "NewDataIndexer(1)" not in txt:
-                    fd = Finding("C3", GO_RT, fn.line, f"{recv}.{meth}", txt, "the scratch accessor is addressed with a field number other than 1", tag=f"go:{recv}.{meth}:field-number")
-                    fd.part = "go"
-                    res.bad(fd)
-                if is_enc and f"data := uint16({data})" not in txt:
-                    fd = Finding("C3", GO_RT, fn.line, f"{recv}.{meth}", txt, f"the encoder does not write {data} as the prefix", tag=f"go:{recv}.{meth}:data")
-                    fd.part = "go"
-                    res.bad(fd)
-                if not is_enc and "return accessor.data" not in txt:
-                    fd = Finding("C3", GO_RT, fn.line, f"{recv}.{meth}", txt, "the decoder does not return what was read", tag=f"go:{recv}.{meth}:return")
-                    fd.part = "go"
-                    res.bad(fd)
-        for meth, want in (("Uint16Accessor.BpSetByte", "m.data |= (uint16(b) << lshift)"), ("Uint16Accessor.BpGetByte", "byte(m.data >> rshift)")):
-            fn = g.func(meth)
-            sw = [s for s in fn.body.stmts if s.k == "switch"]
-            ok = False
-            if sw and go_src(sw[0].tag) == "di.F()":
-                for cs in sw[0].cases:
-                    if cs.vals and [go_src(v) for v in cs.vals] == ["1"]:
-                        body = " ; ".join((f"{go_src(s.lhs[0])} {s.op} {go_src(s.rhs[0])}" if s.k == "assign" else ("return " + go_src(s.vals[0]) if s.k == "return" else s.k)) for s in cs.body)
-                        if want.replace("return ", "") in body:
-                            ok = True
-            res.inst(part="go", function=meth, ok=ok)
-            if not ok:
-                fd = Finding("C3", GO_RT, fn.line, meth, "", f"the 16-bit scratch accessor does not `{want}` for field number 1", tag=f"go:{meth}")
-                fd.part = "go"
-                res.bad(fd)
-    except Inconclusive as e:
-        res.unsure(f"C3: go: {e}")
     return res
+
+
+def _field_is(p: Path, site: Site, n: int) -> bool:
+    """The path is the one taken for field number n (== literal or switch)."""
+    for k, t in p.guards:
+        if k[0] == "cmp" and k[1] == "==" and t:
+            d = k[2]
+            names = {a[1] for a in _all_atoms(d) if a[0] == "var"}
+            if any("field_number" in x or "fnumber" in x for x in names) and d.terms.get((), 0) in (-n, n):
+                return True
+            a_calls = [a for a in _all_atoms(d) if a[0] == "call" and a[1] == "F"]
+            if a_calls and d.terms.get((), 0) in (-n, n):
+                return True
+    return False
+
+
+# --------------------------------------------------------------------- D7
+
+
+def _only_calls(p: Path) -> List[Ev]:
+    return [e for e in p.effects if e.kind in ("call", "setattr", "store", "loop")]
 
 
 @rule("D7", "alias / enum processors only delegate: no cursor change, no prefix")
 def d7(repo: Repo) -> RuleResult:
     res = RuleResult("D7", floor=4)
-    m = get_model(repo)
-    bp = m.mod("bitprotolib/bp.py")
-    for cname, want in (("AliasProcessor", "self.to.process(ctx, di, accessor)"), ("EnumProcessor", "self.ut.process(ctx, di, accessor)")):
-        c = bp.classes.get(cname)
-        f = c.methods.get("process") if c else None
-        if f is None:
-            res.unsure(f"D7: bp.py:{cname}.process vanished")
+    for site, rt in ((PY, py_runtime), (GO, go_runtime)):
+        try:
+            L = rt(repo)
+        except Inconclusive as e:
+            res.unsure(f"D7: {site.lang}: {e}")
             continue
-        body = [src_of(s) for s in f.node.body if not (isinstance(s, ast.Expr) and isinstance(s.value, ast.Constant))]
-        res.inst(part="py", function=f"{cname}.process", body=body)
-        if body != [want]:
-            fd = Finding("D7", BP, f.node.lineno, f"{cname}.process", str(body), "the processor does more (or something else) than delegate to its target", witness="introducing an alias changes the encoded bytes", tag=f"py:{cname}")
-            fd.part = "py"
-            res.bad(fd)
-    try:
-        g = get_go(repo)
-        for key, want in (("AliasProcessor.Process", "t.to.Process(ctx, di, accessor)"), ("EnumProcessor.Process", "t.ut.Process(ctx, di, accessor)")):
-            fn = g.func(key)
-            body = [go_src(s.x) if s.k == "exprstmt" else s.k for s in fn.body.stmts]
-            res.inst(part="go", function=key, body=body)
-            if body != [want]:
-                fd = Finding("D7", GO_RT, fn.line, key, str(body), "the processor does more (or something else) than delegate to its target", tag=f"go:{key}")
-                fd.part = "go"
+        proc = "process" if site.lang == "py" else "Process"
+        me = "self" if site.lang == "py" else "t"
+        for cname, target in (("AliasProcessor", f"{me}.to"), ("EnumProcessor", f"{me}.ut")):
+            try:
+                fn = L.func(f"{cname}.{proc}")
+                paths = L.flow(cname, primitives=(site.base,), names=site.names).run(fn)
+            except Inconclusive as e:
+                res.unsure(f"D7: {site.lang}:{cname}: {e}")
+                continue
+            shapes = []
+            ok = True
+            for p in paths:
+                evs = _only_calls(p)
+                shapes.append(str(evs))
+                if not (len(evs) == 1 and evs[0].kind == "call" and evs[0].name == proc and evs[0].recv is not None and show(evs[0].recv) == target and [show(a) for a in evs[0].args] == ["ctx", "di", "accessor"]):
+                    ok = False
+            res.inst(part=site.lang, function=f"{cname}.{proc}", body=shapes)
+            if not ok:
+                fd = Finding("D7", site.rel, fn.lineno, f"{cname}.{proc}", str(shapes), "the processor does more (or something else) than delegate to its target", witness="introducing an alias changes the encoded bytes", tag=f"{site.lang}:{cname}")
+                fd.part = site.lang
                 res.bad(fd)
-    except Inconclusive as e:
-        res.unsure(f"D7: go: {e}")
-    # Int: bit copy then sign step on decode only
-    c = bp.classes.get("Int")
-    f = c.methods.get("process") if c else None
-    if f is not None:
-        body = [src_of(s) for s in f.node.body if not (isinstance(s, ast.Expr) and isinstance(s.value, ast.Constant))]
-        res.inst(part="py", function="Int.process", body=body)
-        ok = len(body) == 3 and body[0] == "process_base_type(self.nbits, ctx, di, accessor)" and body[1].replace("\n", " ").startswith("if ctx.is_encode:") and "return" in body[1] and body[2] == "accessor.bp_process_int(di)"
-        if not ok:
-            fd = Finding("D7", BP, f.node.lineno, "Int.process", str(body), "signed integers are not: copy nbits, then (decode only) sign step", witness="negative int5 decodes as positive", tag="py:Int.process")
-            fd.part = "py"
-            res.bad(fd)
-    for cname, n in (("Bool", "1"), ("Byte", "8"), ("Uint", "self.nbits")):
-        c = bp.classes.get(cname)
-        f = c.methods.get("process") if c else None
-        if f is not None:
-            body = [src_of(s) for s in f.node.body]
-            res.inst(part="py", function=f"{cname}.process", body=body)
-            if body != [f"process_base_type({n}, ctx, di, accessor)"]:
-                fd = Finding("D7", BP, f.node.lineno, f"{cname}.process", str(body), f"{cname} is not processed as {n} bits", tag=f"py:{cname}.process")
-                fd.part = "py"
+        # Int: bit copy, then the sign step on decode only
+        try:
+            fn = L.func(f"Int.{proc}")
+            paths = L.flow("Int", primitives=(site.base,), names=site.names).run(fn)
+            ok = True
+            shapes = []
+            sign = "bp_process_int" if site.lang == "py" else "BpProcessInt"
+            for p in paths:
+                enc = truth(p, ENC)
+                evs = _only_calls(p)
+                shapes.append((enc, str(evs)))
+                copy_ok = len(evs) >= 1 and evs[0].kind == "call" and evs[0].name == site.base and evs[0].args[0] == V("nbits") and [show(a) for a in evs[0].args[1:]] == ["ctx", "di", "accessor"]
+                if enc is True:
+                    ok = ok and copy_ok and len(evs) == 1
+                elif enc is False:
+                    ok = ok and copy_ok and len(evs) == 2 and evs[1].kind == "call" and evs[1].name == sign and evs[1].recv is not None and show(evs[1].recv) == "accessor" and [show(a) for a in evs[1].args] == ["di"]
+                else:
+                    ok = False
+            res.inst(part=site.lang, function=f"Int.{proc}", body=shapes)
+            if not ok:
+                fd = Finding("D7", site.rel, fn.lineno, f"Int.{proc}", str(shapes), "signed integers are not: copy nbits, then (decode only) sign step", witness="negative int5 decodes as positive", tag=f"{site.lang}:Int.{proc}")
+                fd.part = site.lang
                 res.bad(fd)
-    try:
-        g = get_go(repo)
-        for key, n in (("Bool.Process", "1"), ("Byte.Process", "8"), ("Uint.Process", "t.nbits")):
-            fn = g.func(key)
-            body = [go_src(s.x) if s.k == "exprstmt" else s.k for s in fn.body.stmts]
-            res.inst(part="go", function=key, body=body)
-            if body != [f"processBaseType({n}, ctx, di, accessor)"]:
-                fd = Finding("D7", GO_RT, fn.line, key, str(body), f"not processed as {n} bits", tag=f"go:{key}")
-                fd.part = "go"
+        except Inconclusive as e:
+            res.unsure(f"D7: {site.lang}:Int: {e}")
+        for cname, n in (("Bool", C(1)), ("Byte", C(8)), ("Uint", V("nbits"))):
+            try:
+                fn = L.func(f"{cname}.{proc}")
+                paths = L.flow(cname, primitives=(site.base,), names=site.names).run(fn)
+            except Inconclusive as e:
+                res.unsure(f"D7: {site.lang}:{cname}: {e}")
+                continue
+            ok = True
+            shapes = []
+            for p in paths:
+                evs = _only_calls(p)
+                shapes.append(str(evs))
+                if not (len(evs) == 1 and evs[0].kind == "call" and evs[0].name == site.base and evs[0].args[0] == n and [show(a) for a in evs[0].args[1:]] == ["ctx", "di", "accessor"]):
+                    ok = False
+            res.inst(part=site.lang, function=f"{cname}.{proc}", body=shapes)
+            if not ok:
+                fd = Finding("D7", site.rel, fn.lineno, f"{cname}.{proc}", str(shapes), f"{cname} is not processed as {show(n)} bits", tag=f"{site.lang}:{cname}.{proc}")
+                fd.part = site.lang
                 res.bad(fd)
-        fn = g.func("Int.Process")
-        body = []
-        for s in fn.body.stmts:
-            if s.k == "exprstmt":
-                body.append(go_src(s.x))
-            elif s.k == "if":
-                body.append(f"if {go_src(s.cond)} {{{' ; '.join(x.k for x in s.body.stmts)}}}")
-            else:
-                body.append(s.k)
-        res.inst(part="go", function="Int.Process", body=body)
-        if body != ["processBaseType(t.nbits, ctx, di, accessor)", "if ctx.isEncode {return}", "accessor.BpProcessInt(di)"]:
-            fd = Finding("D7", GO_RT, fn.line, "Int.Process", str(body), "signed integers are not: copy nbits, then (decode only) sign step", tag="go:Int.Process")
-            fd.part = "go"
-            res.bad(fd)
-    except Inconclusive as e:
-        res.unsure(f"D7: go: {e}")
     return res
